@@ -80,6 +80,25 @@ Section Dict.
   Lemma dict_of_distinct (l : list (K * V)) : NoDup (map fst l) -> dict_of eqb l = l.
   Proof. intros Hn. unfold dict_of. rewrite fold_dict_distinct; [reflexivity|exact Hn]. Qed.
 
+  Lemma dict_get_set p q (x : V) d :
+    dict_get eqb p (dict_set eqb q x d) = if eqb p q then Some x else dict_get eqb p d.
+  Proof.
+    induction d as [|[k' v'] r IH]; [reflexivity|].
+    cbn [dict_set]. destruct (eqb q k') eqn:E.
+    - apply eqb_eq in E. subst k'. cbn [dict_get]. destruct (eqb p q); reflexivity.
+    - cbn [dict_get]. rewrite IH. destruct (eqb p k') eqn:E2; [|reflexivity].
+      apply eqb_eq in E2. subst k'. destruct (eqb p q) eqn:E3; [|reflexivity].
+      apply eqb_eq in E3. subst q. rewrite eqb_refl' in E. discriminate.
+  Qed.
+
+  Lemma dict_get_some_in p (v : V) d : dict_get eqb p d = Some v -> In (p, v) d.
+  Proof.
+    induction d as [|[k' v'] r IH]; [discriminate|]. cbn [dict_get].
+    destruct (eqb p k') eqn:E.
+    - intros H. injection H as ->. apply eqb_eq in E. subst. left. reflexivity.
+    - intros H. right. apply IH. exact H.
+  Qed.
+
   Lemma dict_get_in k (v : V) d : NoDup (map fst d) -> In (k, v) d -> dict_get eqb k d = Some v.
   Proof.
     induction d as [|[k' v'] r IH]; intros Hn Hin; [destruct Hin|].
@@ -183,22 +202,22 @@ Section Cells.
   (* a keyword that does not start with "imp" leaves the importance alone *)
   Lemma kw_step_keeps_imp elt rest k k' n :
     String.prefix "imp" elt = false ->
-    kw_step Sc P elt rest k = Ok (k', n) -> k_imp k' = k_imp k.
+    kw_step Sc P elt rest k = Ok (k', n) -> k_imp k' = k_imp k /\ k_impmap k' = k_impmap k.
   Proof.
     intros Hp H. unfold kw_step in H. rewrite Hp in H.
     destruct (contains_sub "fill" elt).
-    { bind_inv H. destruct a as [[[b u] p] m]. injection H as <- _. reflexivity. }
+    { bind_inv H. destruct a as [[[b u] p] m]. injection H as <- _. split; reflexivity. }
     destruct (contains_sub "lat" elt).
-    { bind_inv H. injection H as <- _. reflexivity. }
+    { bind_inv H. injection H as <- _. split; reflexivity. }
     destruct (contains_sub "trcl" elt).
-    { bind_inv H. destruct a as [p m]. injection H as <- _. reflexivity. }
-    destruct (contains_sub "u" elt).
-    { bind_inv H. bind_inv H. injection H as <- _. reflexivity. }
+    { bind_inv H. destruct a as [p m]. injection H as <- _. split; reflexivity. }
+    destruct (String.eqb elt "u").
+    { bind_inv H. bind_inv H. injection H as <- _. split; reflexivity. }
     destruct (contains_sub "rho" elt).
-    { bind_inv H. injection H as <- _. reflexivity. }
+    { bind_inv H. injection H as <- _. split; reflexivity. }
     destruct (contains_sub "mat" elt).
-    { bind_inv H. injection H as <- _. reflexivity. }
-    injection H as <- _. reflexivity.
+    { bind_inv H. injection H as <- _. split; reflexivity. }
+    injection H as <- _. split; reflexivity.
   Qed.
 
   (* [consumes t rest n]: [t] is a keyword other than IMP that the parser
@@ -206,50 +225,120 @@ Section Cells.
   Definition consumes (t : string) (rest : list string) (n : nat) : Prop :=
     String.prefix "imp" t = false /\ forall k, exists k', kw_step Sc P t rest k = Ok (k', n).
 
-  (* [opt_imps toks xs]: reading the option tokens keyword by keyword, the IMP
-     keywords carry the values [xs], in this order *)
-  Inductive opt_imps : list string -> list T -> Prop :=
+  (* [opt_imps toks es]: reading the option tokens keyword by keyword, the IMP
+     keywords are the entries [es] (particles named, value), in this order *)
+  Inductive opt_imps : list string -> list (imp_entry (T:=T)) -> Prop :=
   | oi_nil : opt_imps [] []
-  | oi_imp t v x rest xs :
-      String.prefix "imp" t = true -> fl P v = Some x -> opt_imps rest xs ->
-      opt_imps (t :: v :: rest) (x :: xs)
-  | oi_other t rest n xs :
-      consumes t rest n -> opt_imps (skipn n rest) xs -> opt_imps (t :: rest) xs.
+  | oi_imp t v x rest es :
+      String.prefix "imp" t = true -> fl P v = Some x -> opt_imps rest es ->
+      opt_imps (t :: v :: rest) ((imp_particles t, x) :: es)
+  | oi_other t rest n es :
+      consumes t rest n -> opt_imps (skipn n rest) es -> opt_imps (t :: rest) es.
 
-  (* what the loop leaves in keywords['importance'] *)
-  Definition imp_after (old : option T) (xs : list T) : option T :=
-    fold_left (fun o x => Some (match o with Some m => max2 Sc x m | None => x end)) xs old.
+  (* imp_by_particle after the entries *)
+  Definition assign_all (es : list (imp_entry (T:=T))) (d : list (string * T)) : list (string * T) :=
+    fold_left (fun d e => assign (fst e) (snd e) d) es d.
 
-  Lemma imp_after_max_list xs : imp_after None xs = max_list Sc xs.
+  (* keywords['importance'] after the entries: the largest value of the
+     particle dictionary; None without IMP keyword *)
+  Definition imp_of_entries (es : list (imp_entry (T:=T))) : option T :=
+    match es with [] => None | _ => max_values Sc (assign_all es []) end.
+
+  Lemma parse_kw_imps toks es :
+    opt_imps toks es ->
+    forall k, exists k', parse_kw Sc P toks O k = Ok k' /\
+                         k_impmap k' = assign_all es (k_impmap k) /\
+                         k_imp k' = match es with
+                                    | [] => k_imp k
+                                    | _ => max_values Sc (assign_all es (k_impmap k))
+                                    end.
   Proof.
-    destruct xs as [|x r]; [reflexivity|]. unfold imp_after, max_list. cbn [fold_left].
-    generalize x. induction r as [|y r IH]; intros m; [reflexivity|]. cbn [fold_left]. apply IH.
-  Qed.
-
-  Lemma parse_kw_imps toks xs :
-    opt_imps toks xs ->
-    forall k, exists k', parse_kw Sc P toks O k = Ok k' /\ k_imp k' = imp_after (k_imp k) xs.
-  Proof.
-    induction 1 as [|t v x rest xs Hp Hfl Ho IH|t rest n xs [Hp Hc] Ho IH]; intros k.
-    - exists k. split; reflexivity.
+    induction 1 as [|t v x rest es Hp Hfl Ho IH|t rest n es [Hp Hc] Ho IH]; intros k.
+    - exists k. repeat split; reflexivity.
     - cbn [parse_kw]. unfold kw_step. rewrite Hp. cbn [pop1 bind]. rewrite Hfl. cbn [of_opt bind].
       cbn [parse_kw].
-      match goal with |- context [parse_kw Sc P rest O ?k1] => destruct (IH k1) as (k' & Hk & Hi) end.
-      exists k'. split; [exact Hk|]. rewrite Hi. cbn [k_imp imp_after fold_left].
-      unfold max2. destruct (k_imp k); reflexivity.
+      match goal with |- context [parse_kw Sc P rest O ?k1] => destruct (IH k1) as (k' & Hk & Hm & Hi) end.
+      exists k'. split; [exact Hk|]. cbn [k_impmap k_imp] in Hm, Hi. split.
+      + rewrite Hm. reflexivity.
+      + rewrite Hi. destruct es; reflexivity.
     - cbn [parse_kw]. destruct (Hc k) as (k1 & Hk1). rewrite Hk1. cbn [bind].
-      rewrite parse_kw_skip. destruct (IH k1) as (k' & Hk & Hi).
-      exists k'. split; [exact Hk|]. rewrite Hi.
-      rewrite (kw_step_keeps_imp _ _ _ _ _ Hp Hk1). reflexivity.
+      rewrite parse_kw_skip. destruct (IH k1) as (k' & Hk & Hm & Hi).
+      destruct (kw_step_keeps_imp _ _ _ _ _ Hp Hk1) as [E1 E2].
+      exists k'. split; [exact Hk|]. rewrite Hm, Hi, E1, E2. split; reflexivity.
   Qed.
 
-  (* the IMP keywords of a cell card give the largest of their values *)
-  Theorem keywords_importance toks xs :
-    opt_imps toks xs ->
-    exists k, parse_kw Sc P toks O kws0 = Ok k /\ k_imp k = max_list Sc xs.
+  (* ---- the particle dictionary against the Spec's [last_value] ---- *)
+  Lemma get_assign p ps (x : T) : forall d,
+    dict_get String.eqb p (assign ps x d) = if existsb (String.eqb p) ps then Some x else dict_get String.eqb p d.
   Proof.
-    intros Ho. destruct (parse_kw_imps _ _ Ho kws0) as (k & Hk & Hi).
-    exists k. split; [exact Hk|]. rewrite Hi. apply imp_after_max_list.
+    unfold assign. induction ps as [|q r IH]; intros d; [reflexivity|].
+    cbn [fold_left existsb]. rewrite IH, (dict_get_set String.eqb String.eqb_eq).
+    destruct (String.eqb p q), (existsb (String.eqb p) r); reflexivity.
+  Qed.
+
+  Lemma get_assign_all p es : forall d,
+    dict_get String.eqb p (assign_all es d) =
+    match last_value p es with Some y => Some y | None => dict_get String.eqb p d end.
+  Proof.
+    unfold assign_all. induction es as [|[ps x] r IH]; intros d; [reflexivity|].
+    cbn [fold_left fst snd last_value]. rewrite IH, get_assign.
+    destruct (last_value p r); [reflexivity|]. destruct (existsb (String.eqb p) ps); reflexivity.
+  Qed.
+
+  Lemma assign_nodup ps (x : T) : forall d, NoDup (map fst d) -> NoDup (map fst (assign ps x d)).
+  Proof.
+    unfold assign. induction ps as [|q r IH]; intros d Hn; [exact Hn|].
+    cbn [fold_left]. apply IH. apply (dict_set_nodup String.eqb String.eqb_eq). exact Hn.
+  Qed.
+
+  Lemma assign_all_nodup es : forall d, NoDup (map fst d) -> NoDup (map fst (assign_all es d)).
+  Proof.
+    unfold assign_all. induction es as [|[ps x] r IH]; intros d Hn; [exact Hn|].
+    cbn [fold_left fst snd]. apply IH. apply assign_nodup. exact Hn.
+  Qed.
+
+  Lemma last_value_in p (es : list (imp_entry (T:=T))) v :
+    last_value p es = Some v -> exists ps, In (ps, v) es /\ In p ps.
+  Proof.
+    induction es as [|[ps x] r IH]; [discriminate|]. cbn [last_value].
+    destruct (last_value p r) as [y|].
+    - intros H. injection H as ->. destruct (IH eq_refl) as (ps' & Hin & Hp).
+      exists ps'. split; [right; exact Hin|exact Hp].
+    - destruct (existsb (String.eqb p) ps) eqn:E; [|discriminate]. intros H. injection H as ->.
+      apply existsb_exists in E. destruct E as (q & Hq & Heq). apply String.eqb_eq in Heq. subst q.
+      exists ps. split; [left; reflexivity|exact Hq].
+  Qed.
+
+  Lemma last_value_named p (es : list (imp_entry (T:=T))) :
+    In p (named es) -> exists y, last_value p es = Some y.
+  Proof.
+    induction es as [|[ps x] r IH]; [intros []|]. unfold named. cbn [flat_map fst last_value].
+    intros Hin. apply in_app_or in Hin. destruct (last_value p r) as [y|] eqn:E; [exists y; reflexivity|].
+    destruct Hin as [Hin|Hin].
+    - exists x. replace (existsb (String.eqb p) ps) with true; [reflexivity|].
+      symmetry. apply existsb_exists. exists p. split; [exact Hin|apply String.eqb_refl].
+    - destruct (IH Hin) as (y & Hy). discriminate.
+  Qed.
+
+  Lemma split_on_aux_nonempty c s cur : split_on_aux c s cur <> [].
+  Proof. revert cur. induction s as [|d r IH]; intros cur; cbn; [discriminate|]. destruct (Ascii.eqb d c); [discriminate|apply IH]. Qed.
+
+  (* every IMP keyword names at least one particle (possibly the empty name) *)
+  Lemma opt_imps_particles toks es : opt_imps toks es -> Forall (fun e => fst e <> []) es.
+  Proof.
+    induction 1 as [|t v x rest es Hp Hfl Ho IH|t rest n es Hc Ho IH]; [constructor| |exact IH].
+    constructor; [|exact IH]. cbn [fst]. unfold imp_particles, split_on. apply split_on_aux_nonempty.
+  Qed.
+
+  (* the IMP keywords of a cell card: per particle the last entry counts, the
+     importance is the largest over the particles; every other keyword leaves
+     it alone *)
+  Theorem keywords_importance toks es :
+    opt_imps toks es ->
+    exists k, parse_kw Sc P toks O kws0 = Ok k /\ k_imp k = imp_of_entries es.
+  Proof.
+    intros Ho. destruct (parse_kw_imps _ _ Ho kws0) as (k & Hk & _ & Hi).
+    exists k. split; [exact Hk|]. rewrite Hi. destruct es; reflexivity.
   Qed.
 
   (* --- keywords that [consumes] covers, in syntactic terms --- *)
@@ -257,7 +346,7 @@ Section Cells.
   (* a token no branch of the dispatch reacts to (numbers, VOL, TMP, PWT, ...) *)
   Definition inert (t : string) : Prop :=
     String.prefix "imp" t = false /\ contains_sub "fill" t = false /\ contains_sub "lat" t = false
-    /\ contains_sub "trcl" t = false /\ contains_sub "u" t = false /\ contains_sub "rho" t = false
+    /\ contains_sub "trcl" t = false /\ String.eqb t "u" = false /\ contains_sub "rho" t = false
     /\ contains_sub "mat" t = false.
 
   Lemma consumes_inert t rest : inert t -> consumes t rest O.
@@ -269,7 +358,7 @@ Section Cells.
   (* U = n *)
   Lemma consumes_u t v x rest :
     String.prefix "imp" t = false -> contains_sub "fill" t = false -> contains_sub "lat" t = false ->
-    contains_sub "trcl" t = false -> contains_sub "u" t = true -> fl P v = Some x ->
+    contains_sub "trcl" t = false -> String.eqb t "u" = true -> fl P v = Some x ->
     consumes t (v :: rest) 1.
   Proof.
     intros H1 H2 H3 H4 H5 Hfl. split; [exact H1|]. intros k. eexists.
@@ -280,7 +369,7 @@ Section Cells.
   (* RHO = x, MAT = n (LIKE n BUT cards) *)
   Lemma consumes_rho t v rest :
     String.prefix "imp" t = false -> contains_sub "fill" t = false -> contains_sub "lat" t = false ->
-    contains_sub "trcl" t = false -> contains_sub "u" t = false -> contains_sub "rho" t = true ->
+    contains_sub "trcl" t = false -> String.eqb t "u" = false -> contains_sub "rho" t = true ->
     consumes t (v :: rest) 1.
   Proof.
     intros H1 H2 H3 H4 H5 H6. split; [exact H1|]. intros k. eexists.
@@ -289,7 +378,7 @@ Section Cells.
 
   Lemma consumes_mat t v rest :
     String.prefix "imp" t = false -> contains_sub "fill" t = false -> contains_sub "lat" t = false ->
-    contains_sub "trcl" t = false -> contains_sub "u" t = false -> contains_sub "rho" t = false ->
+    contains_sub "trcl" t = false -> String.eqb t "u" = false -> contains_sub "rho" t = false ->
     contains_sub "mat" t = true ->
     consumes t (v :: rest) 1.
   Proof.
@@ -326,7 +415,7 @@ Section Cells.
          tokens no branch reacts to --- *)
   Definition inert_b (t : string) : bool :=
     negb (String.prefix "imp" t) && negb (contains_sub "fill" t) && negb (contains_sub "lat" t)
-    && negb (contains_sub "trcl" t) && negb (contains_sub "u" t) && negb (contains_sub "rho" t)
+    && negb (contains_sub "trcl" t) && negb (String.eqb t "u") && negb (contains_sub "rho" t)
     && negb (contains_sub "mat" t).
 
   Lemma inert_b_inert t : inert_b t = true -> inert t.
@@ -338,14 +427,14 @@ Section Cells.
 
   (* the values of the IMP keywords, or None when the list holds anything but
      IMP keywords followed by a number and inert tokens *)
-  Fixpoint scan_imps (toks : list string) : option (list T) :=
+  Fixpoint scan_imps (toks : list string) : option (list (imp_entry (T:=T))) :=
     match toks with
     | [] => Some []
     | t :: r =>
         if String.prefix "imp" t then
           match r with
           | v :: r' => match fl P v with
-                       | Some x => option_map (cons x) (scan_imps r')
+                       | Some x => option_map (cons (imp_particles t, x)) (scan_imps r')
                        | None => None
                        end
           | [] => None
@@ -353,7 +442,7 @@ Section Cells.
         else if inert_b t then scan_imps r else None
     end.
 
-  Lemma scan_imps_sound : forall n toks xs,
+  Lemma scan_imps_sound : forall n toks (xs : list (imp_entry (T:=T))),
     (List.length toks <= n)%nat -> scan_imps toks = Some xs -> opt_imps toks xs.
   Proof.
     induction n as [|n IH]; intros toks xs Hn H.
@@ -375,7 +464,7 @@ Section Cells.
   Theorem importance_of_cell importances rank lat mat geom opts xs c :
     opt_imps (option_tokens opts) xs ->
     cell_worker Sc P importances rank lat mat geom opts = Ok c ->
-    match max_list Sc xs with
+    match imp_of_entries xs with
     | Some m => c_imp c = Some m
     | None => nth_error importances rank = Some (c_imp c)
     end.
@@ -383,7 +472,7 @@ Section Cells.
     intros Ho H. unfold cell_worker in H.
     destruct (parse_material P mat) as [[mid rho]|] eqn:Em; cbn [bind] in H; [|discriminate].
     destruct (keywords_importance _ _ Ho) as (k & Hk & Hi). rewrite Hk in H. cbn [bind] in H.
-    rewrite Hi in H. destruct (max_list Sc xs) as [m|].
+    rewrite Hi in H. destruct (imp_of_entries xs) as [m|].
     - cbn [bind] in H.
       destruct (int_tok _) as [z|]; cbn [of_opt bind] in H; [|discriminate].
       destruct (to_fillid k lat) as [fid|]; cbn [bind] in H; [|discriminate].
@@ -403,7 +492,7 @@ Section Cells.
   Proof.
     intros Ho Hn [[mid rho] Hm]. unfold cell_worker. rewrite Hm. cbn [bind].
     destruct (keywords_importance _ _ Ho) as (k & Hk & Hi). rewrite Hk. cbn [bind].
-    rewrite Hi. cbn [max_list]. rewrite Hn. reflexivity.
+    rewrite Hi. cbn [imp_of_entries]. rewrite Hn. reflexivity.
   Qed.
 
   (* ================= skip list and converted cells ================= *)
